@@ -13,14 +13,16 @@ F = 'src/operator/iteration/iterate.rs'
 FI = 'src/operator/iteration/mod.rs'
 FO = 'src/operator/mod.rs'
 FN = 'src/network/mod.rs'
+FC = 'src/channel.rs'
 ASSUMPTIONS = [
-    "Iterate::input_or_feedback and Iterate::wait_update (select over the links with stashing of early input) are used through ASSUMED contracts, not verified: they only APPEND what they receive to input_stash / feedback_content (FIFO), wait_update returns the leader's verdict; their select logic and termination are not under contract",
+    "R-CHAN for Iterate::input_or_feedback / wait_update (now VERIFIED on their real bodies): recv / select return ANY message or a disconnection; a message is tagged with the link it came from (uninterpreted witness from_link); the state receiver exists after setup; a panic (disconnected feedback / state link, a verdict message with != 1 items) does not return (partial correctness). NOT pinned: that a batch obtained from a link is not silently dropped (the receivers have no ghost log), termination",
     "IterationStateHandler is the environment (cross-thread protocol, NOT verified): lock() and wait_sync_state(update) are logged in a ghost event list; wait_sync_state returns the verdict carried by the update",
     "NetworkSender::send appends to the link's ghost log (R-CHAN, `&self` modelled as `&mut`); NetworkReceiver::try_recv returns some message or an error; VecDeque::extend over a message's elements appends them in order (stub extend_from_message; NetworkMessage::into_iter is under contract in units start_next / binary_select)",
     "termination of Iterate::next is not verified (it blocks on the network)",
 ]
 PRELUDE = r'''
 use std::collections::VecDeque;
+use vstd::std_specs::iter::IteratorSpec;
 type BlockId = u64; type HostId = u64; type ReplicaId = u64; type Timestamp = i64;
 trait Data: Clone + Send + 'static {}
 trait ExchangeData: Data {}
@@ -39,7 +41,26 @@ struct NetworkReceiver<In> { _p: core::marker::PhantomData<In> }
 impl<In> NetworkReceiver<In> {
     #[verifier::external_body]
     fn try_recv(&self) -> (r: Result<NetworkMessage<In>, RecvErr>) { unimplemented!() }
+    // R-CHAN: a blocking receive / a select over two links return ANY message or a disconnection
+    #[verifier::external_body]
+    fn recv(&self) -> (r: Result<NetworkMessage<In>, RecvError>)
+        ensures r matches Ok(m) ==> from_link(*self, m)
+    { unimplemented!() }
+    #[verifier::external_body]
+    fn select<In2>(&self, other: &NetworkReceiver<In2>) -> (r: SelectResult<NetworkMessage<In>, NetworkMessage<In2>>)
+        ensures (r matches SelectResult::A(Ok(m)) ==> from_link(*self, m)), (r matches SelectResult::B(Ok(m)) ==> from_link(*other, m))
+    { unimplemented!() }
 }
+// witness that a message was delivered by this link (nothing else can establish it)
+uninterp spec fn from_link<In>(rx: NetworkReceiver<In>, m: NetworkMessage<In>) -> bool;
+spec fn batch_of<In>(rx: Option<NetworkReceiver<In>>, a: Seq<StreamElement<In>>) -> bool {
+    a.len() > 0 ==> rx is Some && exists|m: NetworkMessage<In>| #[trigger] from_link(rx->0, m) && a == msg_data(m)
+}
+// a panic does not return: nothing has to hold afterwards (partial correctness; fail-stop is C20, not decided here)
+#[verifier::external_body]
+fn panic_no_return() ensures false { unimplemented!() }
+#[verifier::external_body]
+fn panic_no_return_val<T>() -> T ensures false { unimplemented!() }
 #[verifier::external_body]
 #[verifier::reject_recursive_types(Out)]
 struct NetworkSender<Out> { _p: core::marker::PhantomData<Out> }
@@ -56,6 +77,9 @@ enum Ev<State> { Lock, Sync(StateFeedback<State>) }
 struct IterationStateHandler<State> { _p: core::marker::PhantomData<State> }
 impl<State> IterationStateHandler<State> {
     uninterp spec fn events(&self) -> Seq<Ev<State>>;
+    // the receiver of the leader's verdicts exists once setup() has run (precondition `ready`)
+    #[verifier::external_body]
+    fn state_receiver(&self) -> (r: Option<&NetworkReceiver<StateFeedback<State>>>) ensures r is Some { unimplemented!() }
     #[verifier::external_body]
     fn lock(&mut self) ensures final(self).events() == old(self).events().push(Ev::Lock) { unimplemented!() }
     #[verifier::external_body]
@@ -83,21 +107,20 @@ impl<Out: ExchangeData, State: ExchangeData> Iterate<Out, State> {
         &&& self.feedback_receiver is Some == o.feedback_receiver is Some && self.output_sender == o.output_sender
         &&& self.content == o.content && self.input_finished == o.input_finished
     }
-    // ---- ASSUMED contracts of the two functions that talk to the links (not verified, see ASSUMPTIONS)
-    #[verifier::external_body]
-    fn input_or_feedback(&mut self)
-        requires old(self).ready(),
-        ensures final(self).same_but_stashes(old(self)),
-            exists|a: Seq<StreamElement<Out>>, b: Seq<StreamElement<Out>>| #[trigger] appended(old(self).input_stash@, final(self).input_stash@, a) && #[trigger] appended(old(self).feedback_content@, final(self).feedback_content@, b),
-    { unimplemented!() }
-    #[verifier::external_body]
-    fn wait_update(&mut self) -> (r: StateFeedback<State>)
-        requires old(self).ready(),
-        ensures final(self).same_but_stashes(old(self)), final(self).feedback_content == old(self).feedback_content,
-            exists|a: Seq<StreamElement<Out>>| #[trigger] appended(old(self).input_stash@, final(self).input_stash@, a),
-    { unimplemented!() }
 }
 spec fn appended<T>(o: Seq<T>, n: Seq<T>, a: Seq<T>) -> bool { n == o + a }
+'''
+IOF_SPEC = r'''
+        requires old(self).ready(),
+        ensures final(self).same_but_stashes(old(self)),                                                    // #obl:input_or_feedback.touches_only_the_two_stashes
+            exists|a: Seq<StreamElement<Out>>, b: Seq<StreamElement<Out>>| #[trigger] appended(old(self).input_stash@, final(self).input_stash@, a) && #[trigger] appended(old(self).feedback_content@, final(self).feedback_content@, b)
+                && batch_of(old(self).input_receiver, a) && batch_of(old(self).feedback_receiver, b),   // #obl:input_or_feedback.each_links_batch_goes_to_its_own_stash_whole_in_order
+        decreases (if old(self).input_receiver is Some { 1int } else { 0int }),
+'''
+WAIT_SPEC = r'''
+        requires old(self).ready(),
+        ensures final(self).same_but_stashes(old(self)), final(self).feedback_content == old(self).feedback_content,   // #obl:wait_update.touches_only_the_input_stash
+            exists|a: Seq<StreamElement<Out>>| #[trigger] appended(old(self).input_stash@, final(self).input_stash@, a),  // #obl:wait_update.early_input_is_stashed_in_order
 '''
 NEXT_INPUT_SPEC = r'''
         requires old(self).ready(),
@@ -189,6 +212,24 @@ NEXT_INV = r"""
 """
 
 
+def message_items(x):
+    """NetworkMessage::{num_items, into_iter} and NetworkDataIterator::next with the same contracts as in units start_next / binary_select."""
+    ii = x.method(FN, 'NetworkMessage', 'into_iter', trait='IntoIterator')
+    ii.replace_exact('V-TRAIT', 'Self::IntoIter', 'NetworkDataIterator<StreamElement<T>>', detail='associated type IntoIter substituted')
+    ii.name_result('r')
+    ii.add_spec("        ensures (r matches NetworkDataIterator::Batch(i) && i.remaining() == msg_data(self)), // #obl:message.into_iter_yields_the_batch_in_order")
+    ni = x.method(FN, 'NetworkMessage', 'num_items'); ni.name_result('r')
+    ni.add_spec("        ensures r == msg_data(*self).len(), // #obl:message.num_items")
+    nx = x.method(FN, 'NetworkDataIterator', 'next', trait='Iterator')
+    nx.replace_exact('V-TRAIT', 'Self::Item', 'T', detail='associated type Item substituted')
+    nx.name_result('r')
+    nx.add_spec('''        ensures
+            (*old(self) matches NetworkDataIterator::Batch(i0) && *final(self) matches NetworkDataIterator::Batch(i1) &&
+                (if i0.remaining().len() == 0 { r is None && i1.remaining() == i0.remaining() }
+                 else { r == Some(i0.remaining()[0]) && i1.remaining() == i0.remaining().skip(1) })),   // #obl:data_iterator.next_pops_head''')
+    return [x.enum(FN, 'NetworkDataIterator'), "impl<T> NetworkMessage<T> {", ni, ii, "}", "impl<T> NetworkDataIterator<T> {", nx, "}"]
+
+
 def build(x):
     pieces = [S.CLONE_IS_EQ, S.RUST_PANIC, S.VECDEQUE_BACK, S.VECDEQUE_IS_EMPTY, PRELUDE]
     se = x.enum(FO, 'StreamElement'); se.text = '#[derive(Clone)]\n' + se.text
@@ -257,5 +298,43 @@ def build(x):
     nx.insert_at_loop_end(1, '''
             proof { phase = if self.state.events()[n0]->Sync_0.0 is Finished { 2 } else { 1 }; }
         ''')
-    pieces += [BOUNDARY, hdr, ni, nst, ff, nx, "}"]
+    # ---- the two functions that talk to the links (formerly used through assumed contracts)
+    iof = x.method(F, 'Iterate', 'input_or_feedback')
+    iof.sub('V-SUBST', r'Err\(Disconnected\)', 'Err(RecvError::Disconnected)', detail='`use RecvError::Disconnected` variant import spelled out')
+    def _ext(m):
+        q, v = m.group(1), m.group(2)
+        o = 'feedback_content' if q == 'input_stash' else 'input_stash'
+        g0 = {'input_stash': 'is0', 'feedback_content': 'fc0'}
+        return (f"let ghost __m = msg_data({v}); extend_from_message(&mut self.{q}, {v}); "
+                f"proof {{ assert(appended({g0[q]}, self.{q}@, __m)); assert(self.{o}@ == {g0[o]}); }}")
+    iof.sub('V-SUBST', r'self\.(input_stash|feedback_content)\.extend\((\w+)\);', _ext, detail='`q.extend(msg)` -> stub extend_from_message (the batch appended in order)')
+    iof.sub('V-SUBST', r'self\.feedback_content\.extend\(rx_feedback\.recv\(\)\.unwrap\(\)\);', 'let __msg = match rx_feedback.recv() { Ok(m) => m, Err(_) => panic_no_return_val() }; let ghost __m = msg_data(__msg); extend_from_message(&mut self.feedback_content, __msg); proof { assert(appended(fc0, self.feedback_content@, __m)); assert(self.input_stash@ == is0); }', detail='`q.extend(rx.recv().unwrap())` -> `let m = match rx.recv() { Ok(m) => m, Err(_) => panic }; extend_from_message(q, m)` (definition of unwrap; a panic does not return)', must=True)
+    iof.sub('V-ASSERT', r'panic!\("feedback_receiver disconnected!"\);', 'panic_no_return();', detail='panic!(..) -> panic_no_return() (ensures false: a panic does not return)', must=True)
+    iof.add_spec(IOF_SPEC)
+    iof.insert_at_body_start('''
+        let ghost is0 = self.input_stash@; let ghost fc0 = self.feedback_content@;
+        proof { assert(appended(is0, is0, Seq::empty())) by { assert(is0 + Seq::<StreamElement<Out>>::empty() =~= is0); }
+                assert(appended(fc0, fc0, Seq::empty())) by { assert(fc0 + Seq::<StreamElement<Out>>::empty() =~= fc0); } }''')
+    wu = x.method(F, 'Iterate', 'wait_update'); wu.name_result('r')
+    wu.desugar_assert()
+    wu.sub('V-SUBST', r'Err\(Disconnected\)', 'Err(RecvError::Disconnected)', detail='`use RecvError::Disconnected` variant import spelled out')
+    wu.sub('V-SUBST', r'self\.(input_stash|feedback_content|content)\.extend\((\w+)\);', r'extend_from_message(&mut self.\1, \2); /*@stashed*/', detail='`q.extend(msg)` -> stub extend_from_message (the batch appended in order)')
+    wu.sub('V-ASSERT', r'panic!\("state_receiver disconnected!"\);', 'panic_no_return_val()', detail='panic!(..) -> panic_no_return() (ensures false: a panic does not return)', must=True)
+    wu.sub('V-ASSERT', r'm => unreachable!\((?:[^()]|\((?:[^()]|\([^()]*\))*\))*\),', 'm => { panic_no_return(); }', detail='unreachable!() arm -> panic_no_return()', flags=re.S, must=True)
+    wu.sub('V-SUBST', r'rust_panic\(\)', 'panic_no_return()', detail='assert!(state_msg.num_items() == 1): a violated assertion panics and does not return (R-PROTO: the leader sends one verdict per message)')
+    wu.sub('V-COMB', r'rx_state\.recv\(\)\.unwrap\(\)', 'match rx_state.recv() { Ok(m) => m, Err(_) => panic_no_return_val() }', detail='`rx.recv().unwrap()` -> `match rx.recv() { Ok(m) => m, Err(_) => panic }` (definition of unwrap; a panic does not return)', must=True)
+    wu.add_spec(WAIT_SPEC)
+    wu.text = '#[verifier::exec_allows_no_decreases_clause]\n' + wu.text
+    wu.insert_at_body_start('\n        let ghost mut ga: Seq<StreamElement<Out>> = Seq::empty();\n        proof { assert(old(self).input_stash@ + ga =~= self.input_stash@); }')
+    wu.add_loop_spec(1, '''
+            invariant
+                self.same_but_stashes(old(self)), self.feedback_content == old(self).feedback_content, self.ready(),
+                self.input_stash@ == old(self).input_stash@ + ga,
+''')
+    wu.insert_before(re.compile(r'extend_from_message\(&mut self\.\w+, msg\)'), 'let ghost __m = msg_data(msg); let ghost __s0 = self.input_stash@;\n                        ')
+    wu.insert_after('/*@stashed*/', ' proof { assert(old(self).input_stash@ + (ga + __m) =~= __s0 + __m); ga = ga + __m; }')
+    wu.sub('V-SPEC', r'return \(should_continue, new_state\);', 'proof { assert(appended(old(self).input_stash@, self.input_stash@, ga)); }\n                    return (should_continue, new_state);', detail='proof block before the return', must=True)
+    re_ = x.enum(FC, 'RecvError'); re_.text = '#[derive(Debug)]\n' + re_.text
+    pieces += [x.enum(FC, 'SelectResult'), re_] + message_items(x)
+    pieces += [BOUNDARY, hdr, iof, wu, ni, nst, ff, nx, "}"]
     return pieces
